@@ -438,8 +438,8 @@ type walkOpts struct {
 	barrier      func(in ssa.Instruction) bool // path stops here (obligation satisfied on this path)
 	deferBarrier func(d *ssa.Defer) bool       // a deferred call that acts as barrier when RunDefers executes
 	cutEdge      func(from *ssa.BasicBlock, succIdx int) bool
-	includePanic bool // report panics as exits too
-	seeDefers    bool // hand Defer instructions to barrier() as well (registration point)
+	includePanic bool                                             // report panics as exits too
+	seeDefers    bool                                             // hand Defer instructions to barrier() as well (registration point)
 	onExit       func(exit ssa.Instruction, pred *ssa.BasicBlock) // called for every (exit, predecessor block) pair reached
 }
 
